@@ -46,6 +46,10 @@ func runC04(c *core.Ctx) {
 	c04Wire(c)
 	c.Rule("C04.R6", "guarded-by: Volatile.data by the owning Volatile.lock (instance-sensitive); Merge holds the locks of both sets", 8)
 	lockRule(c, "C04.R6", []string{tVolatile}, nil)
+	// the durable backend answers Has/Get through a read cache: it must be coherent with the
+	// store after every write (Add, Del and Merge), otherwise two replicas holding the same
+	// entries answer differently (shared with C14.R2)
+	c14R2as(c, "C04.R7")
 }
 
 // mergeKernels returns the functions containing the LWW kernels: for each production
